@@ -46,7 +46,15 @@ def targets(ctx):
         for it in items:
             cls = c.bp(it["msg"])
             mi = schema.msg(f"ks.{it['msg']}")
-            m = guard("build", adapter.build, cls, mi, it["tree"])
+            if it.get("sized_then_filled"):
+                # the writer sized / dumped the still empty instance before filling it IN PLACE (append to its lists,
+                # add map entries, set fields of its sub-messages): the frame written afterwards must be the final one
+                m = cls()
+                guard("len_before", len, m)
+                guard("dump_before", m.dump, BytesIO(), betterproto.SIZE_DELIMITED)
+                m = guard("fill", adapter.fill_lazily, m, mi, it["tree"], 1)
+            else:
+                m = guard("build", adapter.build, cls, mi, it["tree"])
             guard("dump", m.dump, s, betterproto.SIZE_DELIMITED)
             payloads.append(guard("bytes", bytes, m))
             offsets.append(s.tell())
@@ -163,6 +171,8 @@ def targets(ctx):
                     break
         multi = len(items) >= 2 and any((not it["tree"]) or it.get("drop") for it in items)
         labs = [f"n_msgs:{len(items)}", f"kinds:{kinds}", f"stream_len:{min(len(data) // 50 * 50, 400)}"]
+        if any(it.get("sized_then_filled") for it in items):
+            labs.append("instance_sized_before_filled_in_place")
         return Eval(fails, weight=1 + len(data), nontrivial_count=n_inside + (1 if multi else 0), labels=labs)
 
     def ev(case):
@@ -187,6 +197,8 @@ def targets(ctx):
             it["drop"] = sorted(draw(st.lists(st.sampled_from(set_nums), unique=True, min_size=1, max_size=3)))
             if draw(st.integers(0, 2)) == 0:
                 it["retyped"] = True
+        if tree and draw(st.integers(0, 4)) == 0:
+            it["sized_then_filled"] = True
         return it
 
     # bodies that cross the 1->2 byte (and 2->3 byte) length-prefix boundary through different field shapes
